@@ -37,7 +37,7 @@ SIM_SCENARIO(scen_c14, "c14", "C14", 6000000, 30000) {
     hx::Desc d;
     hx::draw_runtime_config(d);
     World world; W = &world;
-    int topo = (int)sim::draw(8, "topology");
+    int topo = (int)sim::draw(9, "topology");
     int nputters = (int)sim::draw_range(1, 3, "putters");
     int nmsg = (int)sim::draw_range(1, 12, "messages");
     int c1 = (int)sim::draw(3, "conc1"), c2 = (int)sim::draw(3, "conc2");      // 0 unlimited, 1 serial, 2
@@ -47,7 +47,7 @@ SIM_SCENARIO(scen_c14, "c14", "C14", 6000000, 30000) {
     world.points = sim::draw_of(ptsv, "points");
     bool do_cancel = sim::draw(6, "cancel") == 0;
     world.ns.resize(6);
-    static const char* const tn[] = {"chain", "broadcast+join", "buffer->rejecting", "input+limiter-feedback", "multifunction-split", "continue-fanin", "async", "buffer->{limiter,rejecting}"};
+    static const char* const tn[] = {"chain", "broadcast+join", "buffer->rejecting", "input+limiter-feedback", "multifunction-split", "continue-fanin", "async", "buffer->{limiter,rejecting}", "two-buffers->rejecting+outside-get"};
     d.add(hx::fmt("flow graph topology=%s putters=%d messages=%d conc=(%d,%d) rejecting1=%d lightweight=%d points=%d cancel=%d", tn[topo], nputters, nmsg, c1, c2, (int)rej1, (int)lw, world.points, (int)do_cancel));
     d.publish();
     graph g;
@@ -266,6 +266,40 @@ SIM_SCENARIO(scen_c14, "c14", "C14", 6000000, 30000) {
         for (int m : delivered) SIM_CHECK(world.sunk[m] == 1, "oracle:message-lost", "async result %d (gateway try_put returned true) reached the sink %d times", m, world.sunk[m]);
         for (int m : dropped) SIM_CHECK(world.sunk[m] == 0 && world.ns[2].processed[m] == 0, "oracle:message-invented", "async result %d was reported as rejected to the gateway caller but was processed", m);
         if (!dropped.empty()) sim::probe("gateway-put-rejected");
+        break;
+    }
+    case 8: {   // two queue_nodes feed one rejecting node with a concurrency limit (both edges flip to pull mode while the
+                // body is busy); an outside thread takes items from the first queue with try_get, so the predecessor at the
+                // front of the cache may have run empty while the other one still holds messages.  Every accepted message
+                // is consumed exactly once, by the sink or by the outside thread; nothing stays behind in a queue
+        int rc = (int)sim::draw_range(1, 2, "rej_conc"), gets = (int)sim::draw(5, "outside_gets"), ggap = (int)sim::draw(40, "get_gap");
+        world.ns[0].limit = rc; world.ns[1].limit = 1;
+        function_node<int, int, rejecting> f(g, (size_t)rc, [&](int m) { enter(0, m); leave(0); return m; });
+        function_node<int, continue_msg, queueing> sink(g, serial, sink_body(1));
+        queue_node<int> q1(g), q2(g);
+        make_edge(q1, f); make_edge(q2, f); make_edge(f, sink);
+        d.add(hx::fmt("rej_conc=%d outside_gets=%d gap=%d", rc, gets, ggap)); d.publish();
+        std::vector<std::function<void()>> fns;
+        for (int p = 0; p < nputters; ++p) fns.push_back([&, p] {
+            for (int m = p; m < nmsg; m += nputters) {
+                sim::upoint();
+                world.idle_declared = false;
+                bool ok = (m % 2 == 0) ? q1.try_put(m) : q2.try_put(m);
+                SIM_CHECK(ok, "oracle:unexpected-reject", "queue_node rejected try_put(%d)", m);
+                ++accepted; accepted_ids.push_back(m);
+            }
+        });
+        fns.push_back([&] {
+            for (int i = 0; i < gets; ++i) {
+                for (int k = 0; k < ggap; ++k) sim::upoint();
+                int v = -1;
+                if (q1.try_get(v)) { world.sunk[v]++; sim::probe("outside-get-took-an-item"); }
+            }
+        });
+        if (do_cancel) fns.push_back([&] { for (int i = 0; i < 15; ++i) sim::upoint(); sim::fault_fired("cancel"); world.cancelled = true; g.cancel(); });
+        hx::run_fibers(fns);
+        finish(true, 1);
+        if (!do_cancel) { int v = -1; SIM_CHECK(!q1.try_get(v) && !q2.try_get(v), "oracle:message-lost", "message %d is still buffered in a queue_node after wait_for_all() although its rejecting successor is idle", v); }
         break;
     }
     }
